@@ -357,7 +357,78 @@ def _extra(ctx):
     interleave_rule(ctx)
 
 
+def wrapper_rules(ctx: Ctx) -> None:
+    """EQW: the two Sequence-level entry points of a comparison.  `Sequence.equals` answers False without looking exactly when the
+    other object is not a Sequence, and otherwise returns what the absolute views' `equals` says for the same four flags;
+    `Sequence.__eq__` does the same through `AbsoluteSequence.__eq__`, which is `equals` with no flag set."""
+    from ..astutil import path_conditions
+    p = ctx.p
+
+    def guard_ok(fi, other):
+        early = [r for r in walk_local(fi.node) if isinstance(r, ast.Return) and isinstance(r.value, ast.Constant)]
+        ok = len(early) == 1 and early[0].value.value is False
+        if ok:
+            pcs = path_conditions(early[0])
+            ok = len(pcs) == 1
+            if ok:
+                t, holds = pcs[0]
+                neg = False
+                while isinstance(t, ast.UnaryOp) and isinstance(t.op, ast.Not):
+                    neg, t = not neg, t.operand
+                ok = isinstance(t, ast.Call) and isinstance(t.func, ast.Name) and t.func.id == "isinstance" and len(t.args) == 2 \
+                    and isinstance(t.args[0], ast.Name) and t.args[0].id == other and src(t.args[1]) == "Sequence" and (holds == neg)
+        ctx.check(ok, "EQW", f"{fi.qualname}: answers False without comparing exactly when the other object is not a Sequence", function=fi.qualname,
+                  construct=f"{fi.qualname} rejects (or accepts) without comparing under a condition other than `not isinstance(other, Sequence)`",
+                  message=f"{[short(r) for r in early]}", file=fi.file, node=early[0] if early else fi.node)
+
+    fe = p.functions.get("Sequence.equals")
+    if fe is None:
+        ctx.undetermined("EQW", "Sequence.equals", "not found: not judged")
+    else:
+        ctx.analysed(fe)
+        other = fe.params[1]
+        guard_ok(fe, other)
+        rets = [r for r in walk_local(fe.node) if isinstance(r, ast.Return) and not isinstance(r.value, ast.Constant)]
+        ok = len(rets) == 1 and isinstance(rets[0].value, ast.Call) and call_method(rets[0].value)[1] == "equals" \
+            and attr_chain(call_method(rets[0].value)[0]) == ["self", "abs"] and not path_conditions(rets[0])
+        if ok:
+            c = rets[0].value
+            tgt = p.func("AbsoluteSequence.equals")
+            names = tgt.params[1:]
+            bound = {}
+            for i, a in enumerate(c.args):
+                if i < len(names):
+                    bound[names[i]] = src(a)
+            for k in c.keywords:
+                bound[k.arg] = src(k.value)
+            want = {names[0]: f"{other}.abs"}
+            for nm in names[1:]:
+                want[nm] = nm if nm in fe.params else None
+            ok = all(bound.get(k) == v for k, v in want.items() if v is not None) and set(fe.params[2:]) <= set(bound.values())
+        ctx.check(ok, "EQW", "Sequence.equals returns abs.equals(other.abs, the same four flags)", function=fe.qualname,
+                  construct="Sequence.equals does not hand the other sequence's absolute view and its own flags, each in its place, to AbsoluteSequence.equals",
+                  message=f"{[short(r, 100) for r in rets]}", file=fe.file, node=rets[0] if rets else fe.node)
+    fq = p.functions.get("Sequence.__eq__")
+    if fq is not None:
+        ctx.analysed(fq)
+        other = fq.params[1]
+        guard_ok(fq, other)
+        rets = [r for r in walk_local(fq.node) if isinstance(r, ast.Return) and not isinstance(r.value, ast.Constant)]
+        ok = len(rets) == 1 and not path_conditions(rets[0]) and src(rets[0].value) in (f"self.abs.__eq__({other}.abs)", f"self.abs == {other}.abs", f"self.equals({other})",
+                                                                                         f"self.abs.equals({other}.abs)")
+        ctx.check(ok, "EQW", "Sequence.__eq__ compares the absolute views", function=fq.qualname, construct="Sequence.__eq__ does not compare the two absolute views",
+                  message=f"{[short(r) for r in rets]}", file=fq.file, node=rets[0] if rets else fq.node)
+    fa = p.functions.get("AbsoluteSequence.__eq__")
+    if fa is not None:
+        ctx.analysed(fa)
+        rets = [r for r in walk_local(fa.node) if isinstance(r, ast.Return)]
+        ok = len(rets) == 1 and src(rets[0].value) == f"self.equals({fa.params[1]})"
+        ctx.check(ok, "EQW", "AbsoluteSequence.__eq__ is equals with no flag set", function=fa.qualname, construct="AbsoluteSequence.__eq__ is not `self.equals(other)`",
+                  message=f"{[short(r) for r in rets]}", file=fa.file, node=fa.node)
+
+
 def check(ctx: Ctx) -> None:
     _main_check(ctx)
+    wrapper_rules(ctx)
     from .common import view_deps
     view_deps(ctx)
